@@ -287,12 +287,15 @@ def work_pg(item, col):
         key = (item["name"], entry) + tuple(case) if nontriv else None
         want = -np.mean(w64 * lp)
         col.tick(1, key)
-        if not num.close(val, want):
+        value_ok = num.close(val, want)
+        if not value_ok:
             col.violation(SIG.format(entry, K_VALUE), dict(base, case=case, got=float(val), want=want, weights=w64, logp=lp))
         gref = ref_grad(policy, obs, act, f32(w64))
         col.tick(1, key)
         if not num.tree_close(grad, gref):
-            col.violation(SIG.format(entry, kind_grad), dict(base, case=case, weights=w64, got_norm=gnorm(grad), want_norm=gnorm(gref)))
+            # right value but wrong gradient with a parameter-sharing baseline: the weights were differentiated
+            kind = kind_grad if value_ok else K_GRAD
+            col.violation(SIG.format(entry, kind), dict(base, case=case, weights=w64, got_norm=gnorm(grad), want_norm=gnorm(gref)))
         if nontriv:
             col.outcome("pg_cases_where_a_sign_flip_would_change_value", int(abs(want) > 1e-6))
             col.outcome("pg_reference_gradient_nonzero", int(gnorm(gref) > 1e-5))
@@ -521,7 +524,7 @@ def sgd_update_check(col, entry, base, update, actor, others, g_ref, N):
     jax.effects_barrier()
     after = params_leaves(actor)
     want = [b - g for b, g in zip(before, grads_leaves(g_ref))]
-    col.tick(1, (base["item"], entry, base.get("pseed"), "step"))
+    col.tick(1, (base["item"], entry, base.get("pseed"), base.get("batch"), base.get("key"), "step"))
     if not num.tree_close(after, want, rtol=2e-4, atol=2e-6):
         col.violation(SIG.format(entry, K_UPD_STEP), dict(base))
     for k, m in others.items():
@@ -531,89 +534,96 @@ def sgd_update_check(col, entry, base, update, actor, others, g_ref, N):
     col.outcome("update_routines_checked_for_actor_only_change")
 
 
+def dpg_ref(policy, q, obs):
+    qq = q(jnp.concatenate((obs, policy(obs)), axis=-1))
+    return -jnp.sum(jnp.reshape(qq, (-1,))) / obs.shape[0]
+
+
+def sale_q12(actor, emb, critic, obs):
+    zs = emb.state_embedding(obs)
+    a = actor(obs, zs)
+    zsa = emb.state_action_embedding(jnp.concatenate((zs, a), axis=-1))
+    x = jnp.concatenate((obs, a), axis=-1)
+    return critic.q1(x, zsa, zs), critic.q2(x, zsa, zs)
+
+
+def sale_ref(actor, emb, critic, obs):
+    qa, qb = sale_q12(actor, emb, critic, obs)
+    return -jnp.sum(jnp.reshape((qa + qb) / 2.0, (-1,))) / obs.shape[0]
+
+
+def mrq_q12(policy, q, enc, zs):
+    zsa = enc.encode_zsa(zs, policy(zs))
+    return q.q1(zsa), q.q2(zsa)
+
+
+def mrq_ref(policy, q, enc, zs):
+    qa, qb = mrq_q12(policy, q, enc, zs)
+    return -jnp.sum(jnp.reshape(jnp.minimum(qa, qb), (-1,))) / zs.shape[0]
+
+
 def work_dpg(item, col):
     head, N, seed = item["head"], item["N"], item["seed"]
-    obs, _, _ = make_batch("tanh", N, seed)
-    for ps in pv_list(item):
-        base = dict(item=item["name"], pseed=ps)
+    n_batches = 2 if item["tier"] == "quick" else 4
+    if head.startswith("dpg"):
+        entry, upd_entry = "deterministic_policy_gradient_loss", "ddpg_update_actor"
+        f_impl = nnx.jit(nnx.value_and_grad(L.deterministic_policy_gradient_loss, argnums=2))
+        f_ref = nnx.jit(nnx.grad(dpg_ref, argnums=0))
+    elif head == "sale":
+        entry, upd_entry = "deterministic_policy_gradient_loss_sale", "td7_update_actor"
+        f_impl = nnx.jit(nnx.value_and_grad(TD7.deterministic_policy_gradient_loss_sale, argnums=3))
+        f_ref = nnx.jit(nnx.grad(sale_ref, argnums=0))
+    else:
+        entry, upd_entry = "mrq_policy_loss", None
+        f_impl = nnx.jit(nnx.value_and_grad(MRQ.mrq_policy_loss, argnums=0, has_aux=True), static_argnums=4)
+        f_ref = nnx.jit(nnx.grad(mrq_ref, argnums=0))
+    for ps, bt in itertools.product(pv_list(item), range(n_batches)):
+        obs, _, _ = make_batch("tanh", N, seed, bt)
+        base = dict(item=item["name"], pseed=ps, batch=bt)
         s = pseed(item, ps)
+        r_ = nnx.Rngs(s)
+        update = None
         if head.startswith("dpg"):
-            entry = "deterministic_policy_gradient_loss"
-            policy = DeterministicTanhPolicy(MLP(2, 2, [3], "tanh", nnx.Rngs(s)), BOX)
-            q1, q2 = MLP(4, 1, [3], "tanh", nnx.Rngs(s + 1)), MLP(4, 1, [3], "tanh", nnx.Rngs(s + 2))
+            policy = DeterministicTanhPolicy(MLP(2, 2, [3], "tanh", r_), BOX)
+            q1, q2 = MLP(4, 1, [3], "tanh", r_), MLP(4, 1, [3], "tanh", r_)
             q = {"dpg-mlp": q1, "dpg-vec": VecOut(q1), "dpg-double": ContinuousClippedDoubleQNet(q1, q2)}[head]
-            a = policy(obs)
-            x = jnp.concatenate((obs, a), axis=-1)
-            qv = f64(q1(x)).reshape(-1)
-            if head == "dpg-double":
-                qv = np.minimum(qv, f64(q2(x)).reshape(-1))
-                col.outcome("dpg_cases_where_the_two_critics_disagree", int(np.any(f64(q1(x)) != f64(q2(x)))))
-            want = -float(np.mean(qv))
-
-            def ref(policy, q, obs):
-                qq = q(jnp.concatenate((obs, policy(obs)), axis=-1))
-                return -jnp.sum(jnp.reshape(qq, (-1,))) / obs.shape[0]
-
-            ok, r = guarded(col, entry, N, base, lambda: nnx.jit(nnx.value_and_grad(L.deterministic_policy_gradient_loss, argnums=2))(q, obs, policy))
+            x = jnp.concatenate((obs, policy(obs)), axis=-1)
+            qa = f64(q1(x)).reshape(-1)
+            qb = f64(q2(x)).reshape(-1) if head == "dpg-double" else qa
+            want = -float(np.mean(np.minimum(qa, qb)))
+            ok, r = guarded(col, entry, N, base, lambda: f_impl(q, obs, policy))
             if not ok:
                 continue
             val, g = r
-            gref = nnx.jit(nnx.grad(ref, argnums=0))(policy, q, obs)
-            others = {"critic": q}
-            upd_entry = "ddpg_update_actor"
+            gref = f_ref(policy, q, obs)
+            actor, others = policy, {"critic": q}
             opt = nnx.Optimizer(policy, optax.sgd(1.0), wrt=nnx.Param)
             update = lambda: DDPG.ddpg_update_actor(policy, opt, q, obs)  # noqa: E731
-            actor = policy
         elif head == "sale":
-            entry = "deterministic_policy_gradient_loss_sale"
-            r_ = nnx.Rngs(s)
             emb = SALE(MLP(2, 3, [3], "elu", r_), MLP(3 + 2, 3, [3], "elu", r_))
             actor = ActorSALE(DeterministicTanhPolicy(MLP(3 + 3, 2, [3], "elu", r_), BOX), 2, 3, r_)
             critic = ContinuousClippedDoubleQNet(
                 CriticSALE(MLP(3 + 6, 1, [3], "elu", r_), 2, 2, 3, r_), CriticSALE(MLP(3 + 6, 1, [3], "elu", r_), 2, 2, 3, r_)
             )
-
-            def ref(actor, emb, critic, obs):
-                zs = emb.state_embedding(obs)
-                a = actor(obs, zs)
-                zsa = emb.state_action_embedding(jnp.concatenate((zs, a), axis=-1))
-                x = jnp.concatenate((obs, a), axis=-1)
-                qm = (critic.q1(x, zsa, zs) + critic.q2(x, zsa, zs)) / 2.0
-                return -jnp.sum(jnp.reshape(qm, (-1,))) / obs.shape[0], (critic.q1(x, zsa, zs), critic.q2(x, zsa, zs))
-
-            _, (qa, qb) = ref(actor, emb, critic, obs)
-            want = -float(np.mean(0.5 * (f64(qa) + f64(qb))))
-            col.outcome("dpg_cases_where_the_two_critics_disagree", int(np.any(f64(qa) != f64(qb))))
-            ok, r = guarded(col, entry, N, base, lambda: nnx.jit(nnx.value_and_grad(TD7.deterministic_policy_gradient_loss_sale, argnums=3))(emb, critic, obs, actor))
+            qa, qb = (f64(t).reshape(-1) for t in sale_q12(actor, emb, critic, obs))
+            want = -float(np.mean(0.5 * (qa + qb)))  # documented: the mean of the two critics
+            ok, r = guarded(col, entry, N, base, lambda: f_impl(emb, critic, obs, actor))
             if not ok:
                 continue
             val, g = r
-            gref = nnx.jit(nnx.grad(lambda a_, e_, c_, o_: ref(a_, e_, c_, o_)[0], argnums=0))(actor, emb, critic, obs)
+            gref = f_ref(actor, emb, critic, obs)
             others = {"embedding": emb, "critic": critic}
-            upd_entry = "td7_update_actor"
             opt = nnx.Optimizer(actor, optax.sgd(1.0), wrt=nnx.Param)
             pol = DeterministicSALEPolicy(emb, actor)
             update = lambda: TD7.td7_update_actor(pol, opt, critic, obs)  # noqa: E731
         else:  # mrq
-            entry = "mrq_policy_loss"
-            r_ = nnx.Rngs(s)
             enc = ModelBasedEncoder(2, 2, 5, 3, 2, 3, [3], "elu", False, r_)
             policy = DeterministicTanhPolicy(LayerNormMLP(3, 2, [3], "elu", rngs=r_), BOX)
             q = ContinuousClippedDoubleQNet(LayerNormMLP(3, 1, [3], "elu", rngs=r_), LayerNormMLP(3, 1, [3], "elu", rngs=r_))
             zs = enc.encode_zs(obs)
-
-            def ref(policy, q, enc, zs):
-                a = policy(zs)
-                zsa = enc.encode_zsa(zs, a)
-                qq = jnp.minimum(q.q1(zsa), q.q2(zsa))
-                return -jnp.sum(jnp.reshape(qq, (-1,))) / zs.shape[0]
-
-            zsa = enc.encode_zsa(zs, policy(zs))
-            qa, qb = f64(q.q1(zsa)).reshape(-1), f64(q.q2(zsa)).reshape(-1)
+            qa, qb = (f64(t).reshape(-1) for t in mrq_q12(policy, q, enc, zs))
             want = -float(np.mean(np.minimum(qa, qb)))
-            col.outcome("dpg_cases_where_the_two_critics_disagree", int(np.any(qa != qb)))
-            f = nnx.jit(nnx.value_and_grad(MRQ.mrq_policy_loss, argnums=0, has_aux=True), static_argnums=4)
-            ok, r = guarded(col, entry, N, base, lambda: f(policy, q, enc, zs, 0.0))
+            ok, r = guarded(col, entry, N, base, lambda: f_impl(policy, q, enc, zs, 0.0))
             if not ok:
                 continue
             (val, (dpg0, reg0)), g = r
@@ -621,26 +631,29 @@ def work_dpg(item, col):
             if not num.close(dpg0, want):
                 col.violation(SIG.format(entry, K_VALUE), dict(base, what="dpg component", got=float(dpg0), want=want))
             for w in [1e-5, 0.5]:
-                ok, r2 = guarded(col, entry, N, base, lambda: f(policy, q, enc, zs, w))
+                ok, r2 = guarded(col, entry, N, base, lambda: f_impl(policy, q, enc, zs, w))
                 if ok:
                     (valw, (dpgw, regw)), _ = r2
-                    col.tick(1, (item["name"], ps, "decomposition", w))
+                    col.tick(1, (item["name"], ps, bt, "decomposition", w))
                     if not (num.close(dpgw, want) and num.close(valw, want + w * float(regw)) and float(regw) >= 0):
                         col.violation(SIG.format(entry, K_VALUE), dict(base, what="loss != dpg + weight*regulariser", weight=w, got=float(valw), dpg=float(dpgw), reg=float(regw), want_dpg=want))
-            gref = nnx.jit(nnx.grad(ref, argnums=0))(policy, q, enc, zs)
-            others, update = {}, None
+            gref = f_ref(policy, q, enc, zs)
+            others = {}
+        if head != "dpg-mlp" and head != "dpg-vec":
+            col.outcome("dpg_cases_where_the_two_critics_disagree", int(np.any(np.abs(qa - qb) > 1e-4)))
         nz = gnorm(gref) > 1e-6
-        key = (item["name"], ps) if nz else None
+        key = (item["name"], ps, bt) if nz else None
         col.outcome("dpg_reference_gradient_nonzero", int(nz))
+        col.outcome("dpg_cases_where_a_sign_flip_would_change_value", int(abs(want) > 1e-4))
         col.tick(1, key)
-        if not num.close(val, want):
-            col.violation(SIG.format(entry, K_VALUE), dict(base, got=float(val), want=want))
+        if np.shape(val) != () or not num.close(val, want):
+            col.violation(SIG.format(entry, K_VALUE), dict(base, got=f64(val), want=want, q1=qa, q2=qb))
         col.tick(1, key)
         if not num.tree_close(g, gref):
             col.violation(SIG.format(entry, K_GRAD), dict(base, got_norm=gnorm(g), want_norm=gnorm(gref)))
         if update is not None:
             sgd_update_check(col, upd_entry, base, update, actor, others, gref, N)
-        col.sample(dict(item=item["name"], pseed=ps, loss=float(val), reference=want, grad_norm=gnorm(gref)))
+        col.sample(dict(item=item["name"], pseed=ps, batch=bt, loss=float(np.mean(f64(val))), reference=want, grad_norm=gnorm(gref)))
 
 
 # -- sac family ------------------------------------------------------------------------------
@@ -665,7 +678,8 @@ def work_sac(item, col):
         policy = make_actor(head, s)
         q1, q2 = MLP(4, 1, [3], "tanh", nnx.Rngs(s + 1)), MLP(4, 1, [3], "tanh", nnx.Rngs(s + 2))
         q = ContinuousClippedDoubleQNet(VecOut(q1), VecOut(q2)) if qshape == "N" else ContinuousClippedDoubleQNet(q1, q2)
-        for ki in range(2):
+        for ki in range(2 if item["tier"] == "quick" else 4):
+            obs, _, _ = make_batch("tanh", N, seed, ki)
             key = jax.random.key(1000 * seed + 10 * ps + ki)
             a = policy.sample(obs, key)
             lp = f64(policy.log_probability(obs, a))
@@ -713,7 +727,8 @@ def work_temp(item, col):
     f_g = nnx.jit(nnx.grad(SAC.sac_exploration_loss, argnums=4))
     for ps in pv_list(item):
         policy = make_actor(head, pseed(item, ps))
-        for ki in range(2):
+        for ki in range(2 if item["tier"] == "quick" else 4):
+            obs, _, _ = make_batch("tanh", N, seed, ki)
             key = jax.random.key(1000 * seed + 10 * ps + ki)
             a = policy.sample(obs, key)
             ent = -float(np.mean(f64(policy.log_probability(obs, a))))  # sampled estimate of the entropy
